@@ -55,9 +55,37 @@ def run(ck: Check) -> None:
     c15.e5(_Alias(ck, "E5", "G"))  # a truncated successor list must not be expanded
     skip_edges(ck, "K")
     blocks(ck, "B")
+    asserts(ck, "A")
+    ck.floor("A", 5)
     ck.floor("G", 24)
     ck.floor("K", 3)
     ck.floor("B", 3)
+
+
+def asserts(ck: Check, rule: str) -> None:
+    """Work that a strategy needs for completeness is not done inside an assert statement: with assertions disabled
+    (python -O) the statement, and the expansion in it, disappears while the driver still reports completion."""
+    prog = ck.prog
+    for fm in prog.models():
+        for n in own_walk(fm.f.node):
+            if not isinstance(n, ast.Assert):
+                continue
+            calls = [c for c in ast.walk(n.test) if isinstance(c, ast.Call)]
+            if not calls:
+                continue
+            bad = []
+            for c in calls:
+                tgt = prog.repo.resolve_call(fm.f, c)
+                w = set()
+                if tgt and not tgt.startswith("ext:"):
+                    w = {x for x in prog.heap_writes_call(fm.f, c)}
+                d = dotted(c.func) or ""
+                if w or d.endswith(("dag.add_node", "dag.add_edge")) or (isinstance(c.func, ast.Attribute) and c.func.attr in
+                                                                         ("append", "add", "remove", "pop", "update", "extend", "clear")):
+                    bad.append(f"`{text(c)[:60]}` (writes {', '.join(sorted(w))[:60] or 'its receiver'})")
+            ck.ob(rule, fm, n, not bad, "assertion only reads" if not bad else
+                  f"the assertion performs {'; '.join(bad)}: with `python -O` this work is skipped and the diagram stays "
+                  f"incomplete although the caller reports completion")
 
 
 def pc_text(fm: FuncModel, n, within=None):
